@@ -236,7 +236,7 @@ pub fn one_fault<K: KeyT, V: ValT>(
         }
     }
     // final drop and ledgers (leaks are permitted only for destructor panics)
-    let MapSut { map, probe_keys, aux, .. } = sut;
+    let MapSut { map, probe_keys, aux, base, .. } = sut;
     drop(aux);
     drop(map);
     drop(probe_keys);
@@ -247,7 +247,7 @@ pub fn one_fault<K: KeyT, V: ValT>(
         }
         env::alloc_check()?;
     } else {
-        end_of_run_checks().map_err(|m| format!("after the panic and final drop: {m}"))?;
+        end_of_run_checks(&base).map_err(|m| format!("after the panic and final drop: {m}"))?;
     }
     Ok(true)
 }
